@@ -62,6 +62,7 @@ import numpy as np
 from mc import ref
 
 PROPERTY = 'C19'
+GUARD = ['numqi.qec']  # argument-immutability oracle (mc.seams.ImmutabilityGuard)
 LEVEL = 'model_checking'
 RULE = ('state = one (code, Pauli error) node of the breadth-first tree by error weight / one (circuit, basis state) pair / one string of '
         'the parser alphabet / one (n, d, operator alphabet or w_z) configuration of an error-set generator (whose complete output is '
